@@ -64,7 +64,8 @@ def gen_cells(rng, fam, n):
         elif fam == 'uint64':
             cells.append(rng.choice([0, 1, 2 ** 63, 2 ** 64 - 1, rng.randint(0, 1000)]))
         elif t == 'int':
-            cells.append(rng.choice([0, 1, -1, 7, -7, 2 ** 40, -2 ** 40, 2 ** 62, rng.randint(-50, 50)]) if not small
+            cells.append(rng.choice([0, 1, -1, 7, -7, 2 ** 40, -2 ** 40, 2 ** 62, 2 ** 53 + 1, -2 ** 53 - 1, 2 ** 62 + 1,
+                                     rng.randint(-50, 50)]) if not small
                          else rng.choice([0, 1, 2, -3]))
         elif t == 'real':
             v = rng.choice(FLOAT_POOL) if not small else rng.choice([0.0, 1.0, 2.5, -2.5])
